@@ -81,6 +81,7 @@ type c16World struct {
 	rotate      int    // user dialects: how far the message list is rotated (0: heartbeat first)
 	neighbours  bool   // two ArduPilot senders (s,255) and (s+1,0) on one channel
 	manySenders int    // ArduPilot senders (distinct ids, channel 0) heard before everything else
+	flapping    bool   // an extra custom link whose read side fails four times per heartbeat period
 	seqStart    int    // sequence number of the first frame of the history ...
 	seqStep     int    // ... and how it moves from frame to frame (mod 256): a sender's counter wraps every 256 frames
 	busyApp     bool   // the application keeps the node busy with writes (to nobody) for a dozen periods
@@ -91,8 +92,8 @@ func (w *c16World) describe() string {
 	for _, h := range w.sources {
 		s = append(s, fmt.Sprintf("(ch%d sys%d comp%d ap%d v2=%v x%d)", h.ch, h.sys, h.comp, h.autopilot, h.v2, h.repeat))
 	}
-	return fmt.Sprintf("dialect=%s version=%d heartbeat=%v period=%v type=%d autopilot=%d streamreq=%v freq=%d channels=%d outV2=%v others=%d tcpPeersOnOneEndpoint=%d timeouts=%s arduPilotSendersHeardFirst=%d applicationBusyWriting=%v firstSequenceNumber=%d sequenceStep=%d sources=%s",
-		w.dialectKind, w.version, w.hbEnabled, w.period, w.sysType, w.apType, w.srEnabled, w.freq, w.nch, w.outV2, w.others, w.tcpPeers, w.timeouts, w.manySenders, w.busyApp, w.seqStart, w.seqStep, strings.Join(s, " "))
+	return fmt.Sprintf("dialect=%s version=%d heartbeat=%v period=%v type=%d autopilot=%d streamreq=%v freq=%d channels=%d outV2=%v others=%d tcpPeersOnOneEndpoint=%d timeouts=%s arduPilotSendersHeardFirst=%d applicationBusyWriting=%v firstSequenceNumber=%d sequenceStep=%d oneMoreLinkThatKeepsDropping=%v sources=%s",
+		w.dialectKind, w.version, w.hbEnabled, w.period, w.sysType, w.apType, w.srEnabled, w.freq, w.nch, w.outV2, w.others, w.tcpPeers, w.timeouts, w.manySenders, w.busyApp, w.seqStart, w.seqStep, w.flapping, strings.Join(s, " "))
 }
 
 func (w *c16World) dialect() *dialect.Dialect {
@@ -148,7 +149,7 @@ func hasStd(d *dialect.Dialect, id uint32, std message.Message) bool {
 
 func TestC16Automatic(t *testing.T) {
 	rec := evid.New(t, "C16", "generated node configurations (heartbeat on/off, period 20-80ms, system/autopilot type, dialect in {common, ardupilotmega, minimal, user dialects with version 0..255 with / without / with a fake HEARTBEAT or REQUEST_DATA_STREAM, none}, stream requests on/off, frequency 1..65535 (mostly 1..50), 1..3 channels, v1/v2 output) and histories of incoming heartbeats from generated (channel, system, component, autopilot) sources repeated several times and interleaved with other messages; oracles: heartbeats on every channel with the configured fields, status 4, dialect version, at most elapsed/period+1 of them and at least 2, none when disabled or the dialect lacks the standard message; for each distinct ArduPilot sender exactly the seven data-stream requests (1,2,3,6,10,11,12) at the configured rate addressed to it on its channel only plus one stream-requested event, nothing for other autopilots, other messages or when disabled; non-trivial = >=2 ArduPilot senders on >=2 channels plus a non-ArduPilot sender; distinct by hash of the scenario")
-	rec.Require("hb-enabled", "hb-disabled-or-missing", "sr-enabled-with-ardupilot", "sr-not-applicable", "multi-sender-multi-channel", "user-dialect", "v1-output", "several-channels-one-endpoint", "dialect-version-0", "ardupilot-sender-with-the-node's-own-ids", "more-than-1024-senders", "heartbeats-with-short-node-timeouts", "non-heartbeat-message-naming-ardupilot", "heartbeats-while-the-application-writes", "sibling-connection-of-the-same-endpoint-closed", "senders-(s,255)-and-(s+1,0)-on-one-channel", "hand-written-heartbeat-declared-in-wire-order", "heartbeat-sequence-numbers-going-down-with-stream-requests-enabled")
+	rec.Require("hb-enabled", "hb-disabled-or-missing", "sr-enabled-with-ardupilot", "sr-not-applicable", "multi-sender-multi-channel", "user-dialect", "v1-output", "several-channels-one-endpoint", "dialect-version-0", "ardupilot-sender-with-the-node's-own-ids", "more-than-1024-senders", "heartbeats-with-short-node-timeouts", "non-heartbeat-message-naming-ardupilot", "heartbeats-while-the-application-writes", "sibling-connection-of-the-same-endpoint-closed", "senders-(s,255)-and-(s+1,0)-on-one-channel", "hand-written-heartbeat-declared-in-wire-order", "heartbeat-sequence-numbers-going-down-with-stream-requests-enabled", "heartbeats-while-another-link-keeps-dropping")
 	evid.Check(t, rec, evid.N(200, 600), func(t *rapid.T) {
 		drawNodeInit(t)
 		w := &c16World{}
@@ -201,6 +202,7 @@ func TestC16Automatic(t *testing.T) {
 		if w.srEnabled && rapid.IntRange(0, 11).Draw(t, "many_senders") == 0 {
 			w.manySenders = rapid.IntRange(1025, 1100).Draw(t, "n_senders")
 		}
+		w.flapping = w.hbEnabled && rapid.IntRange(0, 3).Draw(t, "one_more_link_that_keeps_dropping") == 0
 		w.seqStart, w.seqStep = 0, 1
 		if rapid.Bool().Draw(t, "sequence_numbers_around_the_wrap") {
 			w.seqStart = rapid.SampledFrom([]int{250, 253, 255, 128, 1}).Draw(t, "seq_start")
@@ -221,6 +223,9 @@ func TestC16Automatic(t *testing.T) {
 			if c == "multi-sender-multi-channel" {
 				nt = true
 			}
+		}
+		if w.flapping {
+			cls = append(cls, "heartbeats-while-another-link-keeps-dropping")
 		}
 		if w.srEnabled && w.seqStep >= 128 {
 			cls = append(cls, "heartbeat-sequence-numbers-going-down-with-stream-requests-enabled")
@@ -245,6 +250,13 @@ func runC16(w *c16World) ([]string, error) {
 		tcpAddr = sim.Addr(sim.FreePort())
 		endpoints = append(endpoints, gomavlib.EndpointTCPServer{Address: tcpAddr})
 	}
+	// one more link that keeps dropping and coming back (its read side fails several times per heartbeat period): what
+	// happens to that link is no reason for anything off schedule on the others
+	var flapPipe *sim.Pipe
+	if w.flapping {
+		flapPipe = sim.NewPipe()
+		endpoints = append(endpoints, gomavlib.EndpointCustom{ReadWriteCloser: flapPipe})
+	}
 	n := &gomavlib.Node{Endpoints: endpoints, Dialect: d, OutVersion: gomavlib.V1, OutSystemID: nodeSys, OutComponentID: nodeComp,
 		HeartbeatDisable: !w.hbEnabled, HeartbeatPeriod: w.period, HeartbeatSystemType: w.sysType, HeartbeatAutopilotType: w.apType,
 		StreamRequestEnable: w.srEnabled, StreamRequestFrequency: w.freq}
@@ -260,6 +272,20 @@ func runC16(w *c16World) ([]string, error) {
 	t0 := time.Now()
 	if err := initNode(&n); err != nil {
 		return nil, fmt.Errorf("BROKEN: %v", err)
+	}
+	if flapPipe != nil {
+		stopFlap := make(chan struct{})
+		defer close(stopFlap)
+		go func() {
+			for k := 0; ; k++ {
+				select {
+				case <-stopFlap:
+					return
+				case <-time.After(w.period / 4):
+					flapPipe.FailNextRead(fmt.Errorf("injected link drop %d", k))
+				}
+			}
+		}()
 	}
 	rec := sim.StartRecorder(n, sim.Pacing{Kind: "fast"}, nil)
 	closed := false
